@@ -1,7 +1,7 @@
 """C05: operators compute the documented result for every combination of operand kinds."""
 import json, math, struct
 from framework import Check, Case
-from jqlib import simple_run
+from jqlib import simple_run, run_impl, hx
 import pyref, opref
 from opref import Regex, FUNC, NATIVE, UNSET, RuntimeErr
 
@@ -261,6 +261,63 @@ def tree_ops(t):
     return [] if isinstance(t, int) else tree_ops(t[1]) + [t[0]] + tree_ops(t[2])
 
 
+# ---------------------------------------------------------------- ~ / !~ : one pattern per regex construct
+# The reference is Go's regexp itself (regexp.Compile + MatchString through the harness oracle REGEX, which does not go through
+# jqawk): m1 / m0 / bad.  Every pattern is tried on its own text taken literally, on that text inside a longer string, on
+# strings the construct is meant to match and to refuse, as a regex literal, a string literal, a variable and a document field.
+RX_PATTERNS = [
+    # counted repetition
+    "a{2}", "a{2,}", "a{1,3}", "b{1,}", "0{1}2", "a{0}", "a{0,0}b", "a{0,1}", "x{1}y", "ab{2}", "a{3}b", "^a{2}$", "^a{2,3}$", "^a{2,}$",
+    "^ab{0,1}$", "a{1}", "a{10}", "a{1000}", "a{1001}", "a{2,1}", "a{,2}", "a{", "a{2", "a{2,", "{2}", "{", "}", "{}", "a{}", "{a}", "a{a}", "a{2}{3}",
+    "a{2}{3}{4}", "a{2}*", "a{2}+", "a{2}?", "a{1,2}?", "a{-1}", "a{ 2}", "a{2 }", "a{2,3,4}", "a{1,1001}", "a{1001,}", "a{99999999999}",
+    "a{2}b{2}", "ab{2}c", "é{2}", "x{0}", "{1}", "a{1},", "a{1,}}", "{{2}", "a}{2", "a{02}", "a{2,02}", "a{+2}", "0{1}", "1{2}", "-{2}", " {2}",
+    "_{1,2}", "a{1}{", "a{1}}", "a{2}{", "}{", "a{2}a{2}", "aa{1}", "=>{2}", ":{2}", ",{2}", "<{2}>", "#{1}", "@{3}", "%{2}", "&{1,}", "~{2}", "!{2}",
+    "(ab){2}", "[ab]{2}", ".{3}", "^.{0}$", "(a{2}){2}", "(a|b){2,3}c", "\\d{4}", "[0-9]{2}-[0-9]{2}", "\\{2\\}", "a\\{2\\}", "a\\{2}", "a{2\\}",
+    # * + ? and their misuse
+    "a*", "a+", "a?", "ab*c", "ab+c", "ab?c", "a*?", "a+?", "a??", "*", "+", "?", "*a", "+a", "?a", "a**", "a++", "a+*", "a?*", "a*+", "^*", "(*)", "(+a)",
+    "a|*", "(?i)ABC", "(?i:a)B", "(?P<n>a)", "(?:a)b", "(?", "(?x", "(?<n>a)", "(?=a)", "(?!a)", "(a", "a)", "()", "(", ")", "(())", "((a)", "a(b)c", "(a)(b)",
+    # classes
+    "[abc]", "[^abc]", "[a-c]", "[^a-c]", "[[:alpha:]]", "[[:digit:]]+", "[[:foo:]]", "[^[:space:]]", "\\d", "\\D", "\\w+", "\\W", "\\s", "\\S", "[\\d]", "[^a]", "[]a]",
+    "[]", "[a", "a]", "[z-a]", "[a-]", "[-a]", "[a-a]", "[^]", "[^", "[.]", "[*]", "[{]", "[}]", "[a{2}]", "[\\]]", "[\\\\]", "[é]", "[^é]", "\\pL", "\\p{Greek}", "\\PL",
+    "\\p{Foo}", "\\pX",
+    # anchors and boundaries
+    "^a", "a$", "^$", "^abc$", "^", "$", "$a", "a^", "^^a", "a$$", "\\bfoo\\b", "\\Bfoo", "foo\\B", "\\Aab", "ab\\z", "\\Z", "(?m)^b$", "(?s)a.b", "a.b", "^.$", "^..$",
+    # alternation
+    "a|b", "(a|b)c", "|", "a|", "|a", "a||b", "(|a)", "^(a|ab)$", "^a|b$", "abc|abd", "a|b|c|d", "x|{2}", "a{2}|b{2}",
+    # escapes
+    "\\.", "\\\\", "\\+", "\\*", "\\?", "\\(", "\\)", "\\[", "\\]", "\\{", "\\}", "\\|", "\\^", "\\$", "\\q", "\\a", "\\f", "\\t", "\\n", "\\r", "\\v", "\\e", "\\1", "\\0",
+    "\\x41", "\\x{41}", "\\x{1F600}", "\\x4", "\\x{", "\\101", "\\Q.+\\E", "\\Qa{2}\\E", "\\Q", "\\E", "\\", "a\\", "\\/", "\\-", "\\_", "\\ ", "\\é", "\\C",
+    # no metacharacter at all, and plain text next to one
+    "abc", "", " ", "a b", "é", "2024", "0", "-", "_", "a,b", "a-b", "a=b", "a:b", "a;b", "a<b", "a>b", "a!b", "a@b", "a#b", "a%b", "a&b", "a~b", "a`b",
+    "a.c", "a+c", "1+1", "a*c", "a?c", "a(c", "a)c", "a[c", "a]c", "a{c", "a}c", "a|c", "a^c", "a$c", "a\\c",
+]
+RX_SUBJECTS = ["", "a", "aa", "aaa", "aaaa", "b", "bb", "ab", "abb", "abbc", "abab", "aabb", "abc", "abd", "ABC", "aB", "ac", "abcabc", "012", "02", "2024",
+               "12-34", "x", "xy", "foo", "a foo b", "foobar", ".", "..", "a.c", "a+c", "a+", "\\", "(", ")", "[", "]", "{", "}", "{2}", "a{2}", "a{", "a,2",
+               "|", "^", "$", "*", "+", "?", " ", "  ", "\n", "a\nb", "b\n", "\t", "é", "éé", "日本", "A", "_", "-", "--", "0", "11", "a1", "1+1", "Ω", "a{2}{3}",
+               "a" * 10, "a" * 1000, "=>=>", "::", "<<>", "!!", "~~", "x{1}y", "0{1}2", "b{1,}"]
+RX_NUM_SUBJECTS = [(2024.0, "2024"), (11.0, "11"), (0.5, "0.5"), (-7.0, "-7"), (100.0, "100"), (0.0, "0")]
+
+
+def rx_string_literal(s, q):
+    """source text of a string literal with content s (only \\\\ \\n \\t are escapes; the first quote ends the literal), or None"""
+    if q in s or "\r" in s:
+        return None
+    return q + s.replace("\\", "\\\\").replace("\n", "\\n").replace("\t", "\\t") + q
+
+
+def rx_oracle(pairs):
+    """{(pattern, subject): 'm1' | 'm0' | 'bad'} from Go's regexp through the harness"""
+    pairs = sorted(set(pairs))
+    lines = ["REGEX x%d %s %s" % (i, hx(p), hx(t)) for i, (p, t) in enumerate(pairs)]
+    res = run_impl(lines)
+    out = {}
+    for i, pt in enumerate(pairs):
+        f = res.get("x%d" % i, [])
+        if f and f[0] in ("m1", "m0", "bad"):
+            out[pt] = f[0]
+    return out
+
+
 class C05(Check):
     pid = "C05"
     props = ["C05_operators.v"]
@@ -278,6 +335,10 @@ class C05(Check):
             "string index past the end, $ and its members in BEGIN, missing document fields; directly and handed through calls, "
             "literals, assignments) in both operand positions of every binary operator against every kind, under unary operators, is, "
             "&& ||, ++ -- and compound assignment, and at every position of chains: judged as the literal null; "
+            "~ and !~ with 285 patterns, one per regex construct (counted repetition {n} {n,} {n,m} in valid, literal and invalid spellings, "
+            "* + ? and their misuse, groups and flags, classes, anchors, alternation, escapes, plain text with every punctuation character) "
+            "on the pattern's own text, that text inside a longer string, the repetition spelled out, and drawn subjects; pattern as regex "
+            "literal, string literal, variable, document field and as a rule pattern over records; reference = Go's regexp through the harness oracle; "
             "non-trivial = an operand is not a small positive integer literal")
 
     # ------------------------------------------------------------------ generation
@@ -362,6 +423,7 @@ class C05(Check):
             pa = (repr(a), a, None, json.dumps(a))
             self.unary(rng.choice(UNOPS), pa, rng.choice(modes))
             self.incdec(rng.choice(["x++", "x--", "++x", "--x"]), pa, rng.choice(modes))
+        self.regexes(rng, thorough)
         return self.cases
 
     def rand_double(self, rng):
@@ -648,6 +710,91 @@ class C05(Check):
             want = ("runtime", "")
         self.add(prog, inp, want, {"op": "chain " + " ".join(ops) + " (" + style + ")", "l": " ".join(p[0] for p in ps),
                                    "r": "", "modes": ",".join(o.mode for o in operands)}, ("chain",))
+
+    # ------------------------------------------------------------------ ~ and !~ over every regex construct
+    def regexes(self, rng, thorough):
+        plan = []       # (pattern, subject text, subject source kind)
+        for pat in RX_PATTERNS:
+            subs = [pat, "x" + pat + "y", pat + pat]
+            # what a reader of the pattern as plain text / as a regex would try: the text with the repetition spelled out
+            body = pat.split("{")[0]
+            if body and "{" in pat:
+                subs += [body * n for n in (1, 2, 3)] + [body[:-1] + body[-1] * n for n in (0, 1, 2, 3, 4)]
+            pool = rng.sample(RX_SUBJECTS, 30 if thorough else 5)
+            seen = set()
+            for t in subs + pool:
+                if t not in seen and len(t) < 3000:
+                    seen.add(t)
+                    plan.append((pat, t, None))
+            for v, t in rng.sample(RX_NUM_SUBJECTS, 3 if thorough else 1):
+                plan.append((pat, t, v))
+        ref = rx_oracle([(p, t) for p, t, _ in plan])
+        for pat, t, numv in plan:
+            verdict = ref.get((pat, t))
+            if verdict is None:
+                continue            # no oracle answer (harness missing): nothing to judge
+            forms = ["regex-lit", "str-lit", "var-regex", "var-str", "field", "filter"]
+            for form in rng.sample(forms, 3 if thorough else 2):
+                op = rng.choice(["~", "~", "!~"])
+                self.regex_case(rng, op, pat, t, numv, form, verdict)
+
+    def regex_case(self, rng, op, pat, t, numv, form, verdict):
+        # (`/=` is the compound-assignment token: a regex literal cannot start with `=`)
+        lit_ok = "/" not in pat and "\n" not in pat and not pat.startswith("=")
+        if form in ("regex-lit", "var-regex") and not lit_ok:
+            form = "str-lit" if form == "regex-lit" else "var-str"
+        q = rng.choice(["\"", "'"])
+        ps = rx_string_literal(pat, q) or rx_string_literal(pat, "'" if q == "\"" else "\"")
+        if ps is None:
+            form = "field"
+        if numv is not None:
+            ts = opref.literal(numv)
+            tj = json.dumps(numv)
+        else:
+            ts = rx_string_literal(t, rng.choice(["\"", "'"])) or rx_string_literal(t, "\"") or rx_string_literal(t, "'")
+            tj = json.dumps(t)
+        subj_mode = rng.choice(["lit", "var", "fld"]) if ts is not None else "fld"
+        fields, setup = {}, ""
+        if subj_mode == "lit":
+            L = ts
+        elif subj_mode == "var":
+            setup += "l = %s\n " % ts
+            L = "l"
+        else:
+            fields["l"] = tj
+            L = "$.l"
+        if form == "regex-lit":
+            R = "/" + pat + "/"
+        elif form == "str-lit":
+            R = ps
+        elif form == "var-regex":
+            setup += "r = /%s/\n " % pat
+            R = "r"
+        elif form == "var-str":
+            setup += "r = %s\n " % ps
+            R = "r"
+        else:
+            fields["r"] = json.dumps(pat)
+            R = "$.r"
+        hit = (verdict == "m1") == (op == "~")
+        meta = {"op": op, "l": repr(t), "r": repr(pat), "modes": "%s,%s" % (subj_mode, form), "go_regexp": verdict}
+        if form == "filter":
+            # the match as a rule pattern over records, the pattern text fixed in the program
+            R = ps if (ps is not None and (not lit_ok or rng.random() < 0.5)) else "/" + pat + "/"
+            if not (R.startswith("/") or ps is not None):
+                return
+            doc = "[" + ", ".join('{"id": %s, "n": %d}' % (tj, i) for i in range(2)) + "]"
+            prog = "$.id %s %s { print \"hit\", $.n }\nEND { print \"end\" }" % (op, R)
+            want = ("runtime", "") if verdict == "bad" else ("ok", ("hit 0\nhit 1\n" if hit else "") + "end\n")
+            self.add(prog, [doc], want, dict(meta, modes="rule pattern," + ("str" if R == ps else "regex")), ("regex",))
+            return
+        body = setup + "print (%s %s %s)" % (L, op, R)
+        want = ("runtime", "") if verdict == "bad" else ("ok", fmt_res(hit) + "\n")
+        if fields:
+            doc = "{" + ", ".join('"%s": %s' % kv for kv in fields.items()) + "}"
+            self.add("{ " + body + " }", [doc], want, meta, ("regex",))
+        else:
+            self.add("BEGIN { " + body + " }", [], want, meta, ("regex",))
 
     # ------------------------------------------------------------------ oracle
     def oracle(self, case, impl):
